@@ -78,3 +78,42 @@ class _File:
 
     def __getattr__(self, name):
         return getattr(self._f, name)
+
+
+def as_fsspec(core):
+    """An fsspec filesystem (what dask hands to fastparquet as ``fs.open``) whose mutating calls are events of `core`:
+    open-for-write / write / close / mkdir as above, plus rename and rm."""
+    from fsspec.implementations.local import LocalFileSystem
+
+    class FaultLocalFS(LocalFileSystem):
+        cachable = False
+
+        def open(self, path, mode="rb", **kw):
+            return core.open_with(self._strip_protocol(path), mode)
+
+        def mkdirs(self, path, exist_ok=True):
+            return core.mkdirs(self._strip_protocol(path))
+
+        def makedirs(self, path, exist_ok=True):
+            return core.mkdirs(self._strip_protocol(path))
+
+        def mv(self, path1, path2, **kw):
+            path1, path2 = self._strip_protocol(path1), self._strip_protocol(path2)
+            if core._event("rename", path1, {"to": path2}):
+                raise InjectedIOError("injected failure of rename(%r, %r)" % (path1, path2))
+            os.replace(path1, path2)
+
+        def rename(self, path1, path2, **kw):
+            return self.mv(path1, path2, **kw)
+
+        def rm(self, path, recursive=False, maxdepth=None):
+            for p in (path if isinstance(path, (list, tuple)) else [path]):
+                p = self._strip_protocol(p)
+                if core._event("rm", p):
+                    raise InjectedIOError("injected failure of rm(%r)" % p)
+                LocalFileSystem.rm(self, p, recursive=recursive)
+
+        def rm_file(self, path):
+            return self.rm(path)
+
+    return FaultLocalFS()
